@@ -135,6 +135,9 @@ def run_mount(ctx, table, root, path, apps=None):
         else:
             scope = drivers.to_scope(drivers.Req(path=path.encode("utf-8"), root=root.encode("utf-8")))
             root_seen, path_seen = scope["root_path"], scope["path"]
+            no_root_key = root == "" and (len(path) + len(table)) % 2 == 0
+            if no_root_key:
+                del scope["root_path"]  # the key is optional in ASGI (default "")
             before = snap(scope, ("root_path", "path"))
             res = drivers.run_asgi(app, scope)
             after_root, after_path = scope.get("root_path", ""), scope["path"]
@@ -171,6 +174,8 @@ def run_mount(ctx, table, root, path, apps=None):
             if status != 404:
                 ctx.violation(f"no-entry-but-status-{status}", case, "")
             ctx.mon("untouched-on-404")
+            if iface == "asgi" and no_root_key and not ids and "root_path" in scope:
+                ctx.violation("request-keys-modified-by-mount", case, "a 'root_path' key was added to a scope that had none, although no entry matched")
             if (after_root, after_path) != (eroot, epath):
                 ctx.violation("request-path-modified-on-404", case,
                               f"innermost non-matching mount received root={eroot!r} path={epath!r}; after the call root={after_root!r} path={after_path!r}")
@@ -181,9 +186,9 @@ def run_mount(ctx, table, root, path, apps=None):
 
 
 HOST_PATTERNS = [r"example\.com:80", r"example\.com:443", r"example\.com", r"(www\.)?example\.com", r".*\.example\.com", r"api\.example\.com", r"example", r".*", r"",
-                 r"[a-z]+\.com", r"example\.com(:\d+)?", r"EXAMPLE\.COM", r"ex", r"com", r"e.*m", r"^example\.com$", r"static\..*"]
+                 r"[a-z]+\.com", r"example\.com(:\d+)?", r"EXAMPLE\.COM", r"ex", r"com", r"e.*m", r"^example\.com$", r"static\..*", r"\w+\.example\.com", r"[^.]+\.example\.com"]
 HOSTS = ["example.com:80", "example.com:443", "example.com", "www.example.com", "API.example.com", "Example.Com", "api.example.com", "xexample.com", "example.comx", "example.com:8000", "", None, "EXAMPLE.COM",
-         "example", "static.example.com", "a.b.example.com", "example.com ", " example.com", "ex", "com", "api.example.com.evil.org"]
+         "example", "static.example.com", "a.b.example.com", "example.com ", " example.com", "ex", "com", "api.example.com.evil.org", "caf\xe9.example.com", "\xfcber.example.com"]
 
 
 def build_host_apps(patterns):
